@@ -49,12 +49,23 @@ def run(ctx: Ctx):
               ' and helper threads end" with threads: the failure is stored'
               ' before the stop is announced and both queue sides are woken'
               ' (R-C05-1, R-C05-2)', _c05_shared, qmodel(ctx), min_instances=6)
+  ctx.include('R-C12-8', '"still aligned ... elements after a failing one are'
+              ' never lost": the recorded position advances only with a'
+              ' consumed element (R-C09-4); the in-process operator chain is a'
+              ' generator whose failure ends the pipeline (R-C03-2)',
+              _pos_shared, min_instances=6)
+
+
+def _pos_shared(sub):
+  from mlmverif.props import c03, c09
+  sub.guard(c09.r4)
+  sub.guard(c03.r2)
 
 
 def _c05_shared(sub, m):
   from mlmverif.props import c05
-  c05.r1(sub, m)
-  c05.r2(sub, m)
+  sub.guard(c05.r1, m)
+  sub.guard(c05.r2, m)
 
 
 def r1(ctx: Ctx):
